@@ -7,7 +7,7 @@ for d in sorted(glob.glob('/verif/seeded/*/meta.json')):
     def cell(s,n): 
         s=re.sub(r'\s+',' ',str(s)).replace('|','\\|'); return s if len(s)<=n else s[:n-1]+'…'
     rows.append("| `%s` | %s | %s | %s | %s |" % (name, m.get('property'), cell(m.get('summary',''),260), cell(m.get('needs_to_manifest',''),200), cell(m.get('caught_by_quick_checks','')+' — '+m.get('note',''),330)))
-missed=[r for r in rows if 'MISSED' in r]
+missed=[r for r in rows if 'MISSED' in r or 'missed at first' in r]
 sec = """## 7. Seeded changes (independent sub-agents) and what catches them
 
 Each change below was written by a fresh sub-agent that saw only the text of one property and its own scratch worktree of
@@ -18,7 +18,9 @@ aside), the agent's demonstration fails with the change and passes without it, t
 (`patch.diff`, `demo_test.go`, `meta.json`). Round 1 asked for realistic changes needing something specific to manifest;
 round 2 (names with `r2`) showed the agent the round-1 list and asked for different sites and narrower triggers;
 round 3 (`r3`) showed both earlier lists and asked for indirect routes: shared helpers far from the anchored files, state
-carried between calls, feature combinations, configuration-dependent paths. `/verif/regress_seeded.sh` re-applies every kept
+carried between calls, feature combinations, configuration-dependent paths; round 4 (`r4`) asked the agent to split the
+statement into clauses, pick clauses no earlier change had attacked and break them the way maintenance does (memoisation keyed
+by too little, pooling, early exits, refactorings, over-broad hardening, swapped decoders). `/verif/regress_seeded.sh` re-applies every kept
 change and re-runs the quick tier of its property, so a later edit of a check cannot silently lose one.
 
 **%d changes kept; %d were missed at first and led to a stronger check** (all are caught now):
